@@ -112,7 +112,8 @@ def gen_map_meta(r: random.Random, game: str, keys: int) -> dict:
         return dict(title=t, artist=a, creator=r.choice(CREATORS), difficulty_name=r.choice(["Easy", "Hard", "x y"]),
                     mode=QUA_MODES.get(keys, "Keys4"), audio_file="audio.mp3", background_file=r.choice(["bg.jpg", ""]),
                     song_preview_time=r.choice([0, 1000, 12345]), tags=list(r.choice([[], ["a"], ["a", "b"]])),
-                    description=r.choice(["", "", "d", "l1\nl2\n\nl4", "ends with a break\n"]), source=r.choice(["", "src", "two\nlines"]))
+                    description=r.choice(["", "", "d", "l1\nl2\n\nl4", "ends with a break\n", "Don\x85t stop", "a\x85\nb"]),
+                    source=r.choice(["", "src", "two\nlines"]))
     if game == "sm":
         ctype = SM_TYPES.get(keys, "dance-single")
         if keys == 8 and r.random() < 0.5:
@@ -825,6 +826,13 @@ class GenC14(Gen):
 
 class GenC12(Gen):
     propless_chart_p = 0.4
+
+    def p_map_new(self, *a, **k):
+        op = super().p_map_new(*a, **k)
+        if isinstance(op, dict) and op.get("op") == "map.new" and self.r.random() < 0.12:
+            op["how"] = "df_dup_labels"  # lists whose row labels repeat: the stack must still write through row by row
+        return op
+
     table = dict(map_new=8, mapset_new=3, map_edit_list=5, stack=10, stack_read=6, stack_assign=14, stack_loc=14,
                  map_get_list=2, col_arith=1, map_deepcopy=1, rate=1)
     max_handles = 8
